@@ -200,6 +200,13 @@ def check_c20(root, pid, tier, seed, replay):
             rc, out = lsv.sh(cmd, 900, cwd=lsv.REPO)
             res.oblige('build: library, hooks off, features [%s]' % ','.join(feats), rc == 0, out[-1200:] if rc != 0 else '')
             lib.append({'features': feats, 'built': rc == 0})
+            if rc != 0 and len(res.violations) < 5:
+                # the feature combination is the failing input: the crate does not build in it
+                errs = [l for l in out.splitlines() if l.startswith('error')][:3]
+                rp = lsv.write_replay(root, pid, 'libbuild_%s' % ('_'.join(feats) or 'none'),
+                                      '# C20: the library does not build with --no-default-features --features "%s"\n# replay: cd %s && %s\n%s\n'
+                                      % (','.join(feats), lsv.REPO, ' '.join(cmd), out[-1500:]))
+                res.violations.append(('the library does not build with features [%s]: %s' % (','.join(feats), (errs or [''])[0][:160]), rp, True, 'config_build'))
         res.cov['library_feature_matrix'] = lib
         res.cov['configurations'] = cfgs
         res.cov['size_of_checks'] = 'const assertions of src/lib.rs:39-44 and src/repr.rs:35-40 hold in every configuration that built'
